@@ -339,14 +339,27 @@ def gen_o_origin(rng, n):
         dim = rng.choice([2, 3, 4, 5])
         shape = rng.choice(SHAPES)
         cnt = int(np.prod(shape)) if shape else 1
-        yield {"dim": dim, "shape": shape, "k": [G.fball(rng, dim, 0.97) for _ in range(cnt)],
-               "scale": [rng.choice([-1, 1]) * rng.uniform(0.2, 5) for _ in range(cnt)], "fo": rng.random() < 0.5}
+        # G12 / G16: some members far from the centre (hyperbolic distance 8..16, given on the hyperboloid), mixed with ordinary ones
+        far = [rng.uniform(8, 16) if rng.random() < 0.2 else None for _ in range(cnt)]
+        yield {"dim": dim, "shape": shape, "k": [G.fball(rng, dim, 0.97) for _ in range(cnt)], "far": far,
+               "scale": [rng.choice([-1, 1]) * (10 ** rng.uniform(-9, 9) if rng.random() < 0.15 else rng.uniform(0.2, 5)) for _ in range(cnt)],
+               "fo": rng.random() < 0.5}
 
 
 def run_o_origin(inp):
     dim, shape = inp["dim"], tuple(inp["shape"])
     k = np.array(inp["k"]).reshape(shape + (dim,))
-    X = H.Point(k, model="klein").proj_data * np.array(inp["scale"]).reshape(shape + (1,))
+    X = np.array(H.Point(k, model="klein").proj_data, dtype=float)
+    far = inp.get("far") or [None] * int(np.prod(shape) if shape else 1)
+    Xf = X.reshape(-1, dim + 1).copy()
+    kf = k.reshape(-1, dim).copy()
+    for j, d in enumerate(far):
+        if d is not None:
+            u = kf[j] / np.linalg.norm(kf[j])
+            Xf[j] = np.concatenate([[math.cosh(d)], math.sinh(d) * u])
+            kf[j] = math.tanh(d) * u
+    k = kf.reshape(k.shape)
+    X = Xf.reshape(X.shape) * np.array(inp["scale"]).reshape(shape + (1,))
     P = H.Point(X.copy())
     M = P.origin_to(force_oriented=inp["fo"])
     o = H.Point.get_origin(dim, shape)
@@ -354,9 +367,10 @@ def run_o_origin(inp):
     kk = np.array(img.coords("klein"), dtype=float)
     m = np.array(M.proj_data, dtype=float)
     Jm = G.J(dim)
+    sc = np.maximum(1.0, np.abs(m).max(axis=(-1, -2))) ** 2        # per member: residual relative to the products formed
     return {"err": float(np.abs(kk - k).max()) if kk.shape == k.shape else float("inf"),
-            "res": float(np.abs(m @ Jm @ np.swapaxes(m, -1, -2) - Jm).max()),
-            "mindet": float(np.min(np.linalg.det(m)))}
+            "res": float((np.abs(m @ Jm @ np.swapaxes(m, -1, -2) - Jm).max(axis=(-1, -2)) / sc).max()),
+            "mindet": float(np.min(_orient(m)))}
 
 
 def judge_o_origin(inp, obs, lr):
@@ -503,7 +517,11 @@ def judge_o_comptv(inp, obs, lr):
 def gen_o_along(rng, n):
     for _ in range(n):
         dim = rng.choice([2, 3, 4, 5])
-        yield {"dim": dim, "a": rand_tv(rng, dim), "b": rand_tv(rng, dim), "t1": G.rand_real(rng, -4, 4), "t2": G.rand_real(rng, -4, 4),
+        t1 = G.rand_real(rng, -4, 4)
+        if rng.random() < 0.15:
+            # G12: now and then distances up to 12, in double precision (tanh t is 1 in float32 from t = 9 on)
+            t1 = {"v": rng.uniform(4, 12) * rng.choice([-1, 1]), "pack": rng.choice(G.FLOAT_PACKS)}
+        yield {"dim": dim, "a": rand_tv(rng, dim), "b": rand_tv(rng, dim), "t1": t1, "t2": G.rand_real(rng, -4, 4),
                "q": G.fball(rng, dim, 0.95), "qs": rng.choice([-1, 1]) * rng.uniform(0.3, 3)}
 
 
@@ -558,7 +576,10 @@ def judge_o_along(inp, obs, lr):
     t1, t2 = G.val(inp["t1"]), G.val(inp["t2"])
     # a float32 distance carries 6e-8 relative error into tanh t, amplified by cosh^2 t in the distance
     f32 = G.is32(inp["t1"]) or G.is32(inp["t2"])
-    dtol = 1e-6 * (1 + abs(t1)) + (3e-7 * math.cosh(t1) ** 2 if G.is32(inp["t1"]) else 0.0)
+    # point_along goes through the Klein coordinate tanh t, whose distance from 1 is 2 e^(-2t): the pinned tree places the point
+    # with an error of about eps e^(2|t|) / 4 in the distance (measured 2e-5 at t = 12); 4e-15 e^(2|t|) is asked for
+    far = 4e-15 * math.exp(2 * abs(t1))
+    dtol = 1e-6 * (1 + abs(t1)) + (3e-7 * math.cosh(t1) ** 2 if G.is32(inp["t1"]) else 0.0) + far
     if not abs(obs["d1"] - abs(t1)) <= dtol:
         return {"expected": {"d(p, point_along(t))": abs(t1)}, "observed": obs["d1"],
                 "tags": {"what": "distance", "neg": t1 < 0, "pack": inp["t1"]["pack"] if isinstance(inp["t1"], dict) else "float",
@@ -567,7 +588,7 @@ def judge_o_along(inp, obs, lr):
         return {"expected": "point on the geodesic spanned by the tangent vector", "observed": obs["rank3"], "tags": {"what": "span"}}
     lhs = math.cosh(obs["c"])
     rhs = math.cosh(t1) * math.cosh(t2) - math.sinh(t1) * math.sinh(t2) * math.cos(obs["ang"])
-    if not abs(lhs - rhs) <= (1e-3 if f32 else 1e-6) * (1 + abs(rhs)):
+    if not abs(lhs - rhs) <= ((1e-3 if f32 else 1e-6) + far) * (1 + abs(rhs)):
         return {"expected": {"law of cosines rhs": rhs}, "observed": lhs, "tags": {"what": "law_of_cosines"}}
     if "ang_reps" in obs and not (max(abs(a - obs["ang"]) for a in obs["ang_reps"]) <= 1e-7 and abs(obs["ang_opp"] - (math.pi - obs["ang"])) <= 1e-7):
         return {"expected": {"angle independent of the representative (x,v) ~ (-x,-v); pi - angle for (x,v1),(-x,v2)": obs["ang"]},
